@@ -11,6 +11,11 @@ from field import P
 BOUNDARY = [0, 1, 2, 3, 2**16 - 1, 2**16, 2**31, 2**32 - 1, 2**32, 2**32 + 1, P - 1, P - 2, (P + 1) // 2]
 
 
+def solver_timeout_ms():
+    import os
+    return os.environ.get("VERIF_BV_TIMEOUT_MS", "120000")
+
+
 def real_lemmas(ctx, env):
     """for every product atom: (args have the model's values) => result is the real product"""
     out = []
@@ -58,7 +63,13 @@ def decide(ctx, solver, assume, post, max_refine=12):
         if r == z3.unsat:
             return "unsat", None
         if r != z3.sat:
-            return "unknown", solver.reason_unknown()
+            # second back end: the same assertions in fixed-width bit-vector arithmetic (exact for
+            # bounded integers; see lib/bvquery.py).  Only its `unsat` is used as a verdict.
+            import bvquery
+            st, info = bvquery.check_bv(list(solver.assertions()), timeout_ms=int(solver_timeout_ms()))
+            if st == "unsat":
+                return "unsat", None
+            return "unknown", f"z3/LIA: {solver.reason_unknown()}; bit-vector back end: {st} {info if st != 'sat' else '(model not used)'}"
         # a model exists over the uninterpreted fmul.  Look first for one in which every product
         # has an operand in {0,1}: there the axioms pin fmul to the real product.
         solver.push()
